@@ -11,6 +11,7 @@ dispatching via attribute access.
 
 from __future__ import annotations
 
+import struct
 from typing import Any, Callable, Mapping, Sequence, Union
 
 import onnx_ir as ir
@@ -396,6 +397,17 @@ def build_function(
     )
 
 
+def _hashable_constant(value: int | float | bool | str) -> Any:
+    """Cache key of a Python constant.
+
+    Floats are keyed by their bit pattern: ``0.0 == -0.0`` although they are different
+    tensors, and ``nan != nan`` although it is the same tensor.
+    """
+    if isinstance(value, float):
+        return ("float", struct.pack("<d", value))
+    return value
+
+
 class GraphBuilder(BuilderBase):
     """Imperative builder for constructing ONNX IR graphs with automatic constant promotion, type casting, and shape inference."""
 
@@ -611,7 +623,7 @@ class GraphBuilder(BuilderBase):
         if isinstance(value, (int, float, bool, str)):
             if dtype is None:
                 dtype = _PYTHON_TYPE_TO_DTYPE.get(type(value))
-            cache_key = (value, dtype)
+            cache_key = (_hashable_constant(value), dtype)
             if cache_key in root._constant_cache:
                 return root._constant_cache[cache_key]
             type_suffix = _dtype_suffix(dtype) if dtype is not None else ""
@@ -628,7 +640,7 @@ class GraphBuilder(BuilderBase):
         ):
             if dtype is None:
                 dtype = _PYTHON_TYPE_TO_DTYPE.get(type(value[0]))
-            cache_key = (tuple(value), dtype)
+            cache_key = (tuple(_hashable_constant(v) for v in value), dtype)
             if cache_key in root._constant_cache:
                 return root._constant_cache[cache_key]
             type_suffix = _dtype_suffix(dtype) if dtype is not None else ""
